@@ -291,7 +291,7 @@ def _scan_param(index, fi, name, nested, depth):
             # every use sits inside a materialising sub-expression (`Params(shared=list(shared_params), ...)`, `return [list(t) for t in tasks_params]`)
             if state == "raw" and uses and not isinstance(st, (ast.For, ast.While, ast.With, ast.Try)):
                 inside = {id(n) for e in ast.walk(st) if isinstance(e, ast.expr) and materialises(e, name, nested) for n in ast.walk(e)}
-                if all(id(u) in inside for u in uses if not is_len_or_none_test(fn, u)):
+                if [u for u in uses if not is_len_or_none_test(fn, u)] and all(id(u) in inside for u in uses if not is_len_or_none_test(fn, u)):
                     if assigns_name and isinstance(st.targets[0], ast.Name):
                         state = "materialised"
                     else:
@@ -378,11 +378,26 @@ def materialises(value, name, nested) -> bool:
             return False
         arms = [value.body, value.orelse]
         ok = True
+        any_reads = False
         for a in arms:
             reads = any(isinstance(n, ast.Name) and n.id == name for n in ast.walk(a))
+            any_reads = any_reads or reads
             if reads and not materialises(a, name, nested):
                 ok = False
-        return ok
+        return ok and any_reads  # (an expression that only asks whether the parameter is None materialises nothing)
+    def spread_of(e, var):
+        # `[*var]`, `(*var,)`, `{*var}`: a display made of the one spread iterable is list(var) / tuple(var) / set(var)
+        return isinstance(e, (ast.List, ast.Tuple, ast.Set)) and len(e.elts) == 1 and isinstance(e.elts[0], ast.Starred) and isinstance(e.elts[0].value, ast.Name) and e.elts[0].value.id == var
+
+    if spread_of(value, name):
+        return not nested
+    if isinstance(value, (ast.List, ast.Tuple, ast.Set)) and len(value.elts) == 1 and isinstance(value.elts[0], ast.Starred) and isinstance(value.elts[0].value, ast.IfExp):
+        it = value.elts[0].value  # `[*(default if default is not None else name)]`
+        tu = [n for n in ast.walk(it.test) if isinstance(n, ast.Name) and n.id == name]
+        none_test = isinstance(it.test, ast.Compare) and len(it.test.ops) == 1 and isinstance(it.test.ops[0], (ast.Is, ast.IsNot)) and isinstance(it.test.left, ast.Name) and it.test.left.id == name
+        arms = [a for a in (it.body, it.orelse) if any(isinstance(n, ast.Name) and n.id == name for n in ast.walk(a))]
+        if (not tu or none_test) and arms and all(isinstance(a, ast.Name) and a.id == name for a in arms):
+            return not nested
     v = value
     depth = 0
     while isinstance(v, ast.Call) and ast.unparse(v.func) in MATERIALISERS and v.args and depth < 4:
@@ -390,11 +405,26 @@ def materialises(value, name, nested) -> bool:
         depth += 1
     if depth and isinstance(v, ast.Name) and v.id == name:
         return not nested
-    if isinstance(value, ast.ListComp) and len(value.generators) == 1 and isinstance(value.generators[0].iter, ast.Name) and value.generators[0].iter.id == name:
+    def selects(it):
+        # the iterated expression is the parameter itself, or `<other> if <test not traversing it> else <parameter>` (either arm)
+        if isinstance(it, ast.Name):
+            return it.id == name
+        if isinstance(it, ast.IfExp):
+            tu = [n for n in ast.walk(it.test) if isinstance(n, ast.Name) and n.id == name]
+            none_test = isinstance(it.test, ast.Compare) and len(it.test.ops) == 1 and isinstance(it.test.ops[0], (ast.Is, ast.IsNot)) and isinstance(it.test.left, ast.Name) and it.test.left.id == name
+            if tu and not none_test:
+                return False
+            arms = [a for a in (it.body, it.orelse) if any(isinstance(n, ast.Name) and n.id == name for n in ast.walk(a))]
+            return bool(arms) and all(selects(a) for a in arms)
+        return False
+
+    if isinstance(value, ast.ListComp) and len(value.generators) == 1 and not value.generators[0].ifs and selects(value.generators[0].iter):
         e = value.elt
         tv = value.generators[0].target
-        return isinstance(e, ast.Call) and isinstance(e.func, ast.Name) and e.func.id in ("list", "tuple", "set", "ordered_set") and isinstance(tv, ast.Name) \
-            and len(e.args) == 1 and isinstance(e.args[0], ast.Name) and e.args[0].id == tv.id
+        if not isinstance(tv, ast.Name):
+            return False
+        return (isinstance(e, ast.Call) and isinstance(e.func, ast.Name) and e.func.id in ("list", "tuple", "set", "ordered_set")
+                and len(e.args) == 1 and isinstance(e.args[0], ast.Name) and e.args[0].id == tv.id) or spread_of(e, tv.id)
     return False
 
 
